@@ -495,6 +495,20 @@ def run(ck):
         for sc in T["close_for"]:
             cases.append(("spelling", [("c", ("A", "h", ["p", "q"])), ("f", so, "v", "h", [("c", ("E", "a", ["v"]))], sc),
                                         ("c", ("E", "z", []))], []))
+    # long inner loops: a loop nested in a loop / in a taken branch keeps its own state however many iterations the inner loop
+    # makes (seed C04-w7-m1: the while call stack was capped at 256 entries by dropping the OLDEST ones - the enclosing loop's
+    # entry - so the outer loop ended silently after one pass over an inner loop of 256+ iterations)
+    for n_inner in (200, 300, 600):
+        for outer in ("w", "f", "i"):
+            inner = [("w", T["while"][0], ("N", "ci"), [("c", ("E", "in", []))], "end")]
+            body = [("c", ("E", "top", [])), ("c", ("S", "ci", "T" * n_inner))] + inner + [("c", ("E", "after", ["ci"]))]
+            if outer == "w":
+                prog = [("w", T["while"][0], ("N", "c"), body, "end")]
+            elif outer == "f":
+                prog = [("c", ("A", "h", ["p", "q", "r"])), ("f", T["for"][0], "v", "h", body, "end")]
+            else:
+                prog = [("i", T["if"][0], ("N", "c"), body, [("el", T["else"][0], [("c", ("E", "never", []))])], "end")]
+            cases.append(("spelling", prog + [("c", ("E", "z", []))], ["c", "TTT", "ci", ""]))
     n_spelling = len(cases)
     # 2. every skeleton with <= N constructs, depth <= 3, under every boolean script of length L
     n_constr = 4 if thorough else 3
